@@ -91,7 +91,7 @@ def run(tier, work):
     hists, _ = vlib.generate(SPEC, "HeartBeatGen", "GenQuick.cfg" if tier == "quick" else "GenThorough.cfg", work, "p2a")
     nsim = 1500 if tier == "quick" else 40000
     sims, _ = vlib.generate(SPEC, "HeartBeatGen", "GenSim.cfg", work, "p2b", workers=4,
-                            simulate="num=%d" % (nsim // 4), extra=["-depth", "12", "-seed", str(vlib.SEED)], timeout=900)
+                            simulate="num=%d" % nsim, extra=["-depth", "12", "-seed", str(vlib.SEED)], timeout=900)
     rnd = random.Random(vlib.SEED)
     sims.sort(key=lambda h: json.dumps(h, sort_keys=True))
     rnd.shuffle(sims)
